@@ -42,7 +42,7 @@ Qed.
 Lemma step_pair_spec r c nodes n' : step_pair r c nodes = Some n' ->
   Permutation (all_leaves n') (all_leaves nodes) /\ S (length n') = length nodes.
 Proof.
-  unfold step_pair. destruct (Nat.eqb r c); [discriminate|].
+  unfold step_pair.
   destruct (pop_nth (Nat.max r c) nodes) as [[a n1]|] eqn:E1; [|discriminate].
   destruct (pop_nth (Nat.min r c) n1) as [[b n2]|] eqn:E2; [|discriminate]. intro H. inversion H; subst n'. clear H.
   destruct (pop_nth_spec _ _ _ _ E1) as [P1 L1]. destruct (pop_nth_spec _ _ _ _ E2) as [P2 L2]. split.
